@@ -495,14 +495,9 @@ func checkPlainSendEcho(c *Ctx, r *Report) {
 		r.Anchor(rule, "(*channel.Channel).SendInputB / Write / WriteReturn")
 		return
 	}
-	var worker *ssa.Function
-	for _, a := range AnonFuncsDeep(fn) {
-		if len(staticCallsTo(a, wret)) > 0 {
-			worker = a
-		}
-	}
+	worker, _, why := sendInputWorker(c, fn, wret)
 	if worker == nil {
-		r.Unk(rule, "SendInputB worker", c.Pos(fn.Pos()), "no worker closure writing the return found")
+		r.Unk(rule, "SendInputB worker", c.Pos(fn.Pos()), "no worker closure writing the return found"+why)
 		return
 	}
 	var W, WR ssa.Instruction
